@@ -252,12 +252,14 @@ def replay_build(mirror, release=False, extra_cfg=""):
         with open(os.path.join(rdir, "Cargo.toml"), "w") as f:
             f.write(t)
         shutil.copy(os.path.join(mirror.src, "Cargo.lock"), os.path.join(rdir, "Cargo.lock"))
-    tdir = os.path.join(CACHE, "native-target")
+    # one target directory per cfg set: a change of RUSTFLAGS would otherwise rebuild every dependency each time two checks alternate
+    tag = "native-target" + ("-" + re.sub(r"[^a-z0-9_]+", "_", extra_cfg.replace("--cfg", "").strip()) if extra_cfg.strip() else "")
+    tdir = os.path.join(CACHE, tag)
     cmd = ["cargo", "build", "--offline", "--target-dir", tdir]
     if release:
         cmd.append("--release")
     env = env_offline({"RUSTFLAGS": ("--cfg dmntk_verif -Awarnings " + extra_cfg).strip()})
-    with Lock("native-target"):
+    with Lock(tag):
         rc, out, secs = sh(cmd, cwd=rdir, env=env, timeout=1800)
         if rc != 0:
             raise RuntimeError("replay build failed:\n" + out[-4000:])
